@@ -26,7 +26,7 @@ CASE_TIMEOUT = 200.0
 
 
 def gen_cases(seed, tier):
-    n = 14 if tier == "quick" else 200
+    n = 14 if tier == "quick" else 600
     cases = []
     for cls, w in (("cadzow", 2), ("svd", 1), ("smooth", 1), ("savgol", 2), ("venn", 2), ("stack", 1)):
         cases += [{"cls": cls, "seed": seed * 10000 + i, "n": 4, "_w": w} for i in range(n)]
